@@ -382,13 +382,32 @@ pub fn c09(tier: &str, flavor: Flavor) -> Spec {
             jobs.push(job(single(&cfg, flavor, ops.clone()), &[1], "c09-unsettled"));
         }
     }
+    // ... and relative to pending work that takes the key out before the queued item is handled:
+    // capacity 1, so a buffered insert of the other key evicts the resident one
+    let mut alpha3 = vec![ins(1, 1, 0), ins(2, 1, 0), Op::Pres { k: 1, c: 1 }, Op::Get { k: 1 }, Op::Settle];
+    if !quick {
+        alpha3.push(Op::Rem { k: 1 });
+    }
+    for s in sequences(&alpha3, if quick { 4 } else { 5 }) {
+        if !s.iter().any(|o| matches!(o, Op::Pres { .. })) {
+            continue;
+        }
+        let mut ops = s.clone();
+        ops.push(Op::Settle);
+        ops.push(Op::Get { k: 1 });
+        ops.push(Op::Snap);
+        for validator in [ValidatorMode::Never, ValidatorMode::Newer] {
+            let cfg = Cfg { validator, max_cost: 1, ..Cfg::default() };
+            jobs.push(job(single(&cfg, flavor, ops.clone()), &[1], "c09-unsettled-evicting"));
+        }
+    }
     Spec {
         id: "C09",
         jobs,
         oracle: o_c09_all,
         interesting: |_, t| t.validator_calls.iter().any(|c| !c.2) || t.recs.iter().any(|r| matches!(r.op, Op::Pres { .. }) && r.res == Res::Bool(true)),
         rule: format!(
-            "validators {{always, never, newer-only}} x every history of depth {} over 13 symbols (I(k), I(k,2s), P(k), R(k), G(k), T(k) for k in 1..2, A(1s)), quiescence after every step, bound 0, exact reference map + snapshot identity across vetoes; plus every unsettled history over {{I(1),P(1),R(1),S}} (insert_if_present racing buffered work for the same key) at preemption bound 1; non-trivial = a veto happened or insert_if_present updated",
+            "validators {{always, never, newer-only}} x every history of depth {} over 13 symbols (I(k), I(k,2s), P(k), R(k), G(k), T(k) for k in 1..2, A(1s)), quiescence after every step, bound 0, exact reference map + snapshot identity across vetoes; plus every unsettled history over {{I(1),P(1),R(1),S}} (insert_if_present racing buffered work for the same key) and over {{I(1),I(2),P(1),G(1),S}} on a cache of capacity 1 (buffered work evicts the key before the queued item is handled) at preemption bound 1: a vetoed or refused write never becomes visible or resident; non-trivial = a veto happened or insert_if_present updated",
             depth
         ),
         assumptions: COMMON_ASSUMPTIONS.iter().map(|s| s.to_string()).collect(),
@@ -423,6 +442,21 @@ fn o_c09_unsettled(p: &Program, t: &Trace) -> Vec<Finding> {
                 // the remove takes the resident entry out immediately; buffered inserts may still land
             }
             _ => {}
+        }
+    }
+    // an insert_if_present the validator vetoed never becomes an entry, whatever happens to the key
+    // between the call and the processing of what the call queued: it would either have replaced
+    // the value it was vetoed against or have created an entry.  (A vetoed plain insert is queued as
+    // a new item by design and may be admitted once the old entry has been evicted: no replacement.)
+    for r in &recs {
+        if let (Op::Pres { .. }, Some(v)) = (r.op, r.wrote) {
+            if t.validator_calls.iter().any(|(_, c, ok)| *c == v && !*ok) {
+                let visible = t.recs.iter().any(|l| matches!(&l.res, Res::Val(Some((x, _))) if *x == v));
+                let resident = t.snaps.iter().any(|s| s.entries.iter().any(|e| e.value == v));
+                if visible || resident {
+                    out.push(("veto-value-visible".to_string(), format!("{} was vetoed by the validator but its value {:?} is in the cache", r.op.short(), v)));
+                }
+            }
         }
     }
     for r in &recs {
@@ -485,13 +519,25 @@ pub fn c16(tier: &str, flavor: Flavor) -> Spec {
             }
         }
     }
+    // evictions and rejections among entries of different costs: what on_evict / on_reject are told
+    // is each entry's own charge, not the newcomer's
+    let ev_alpha = [ins(1, 6, 0), ins(2, 3, 0), ins(3, 9, 0), ins(3, 4, 0), ins(1, 2, 0), ins(2, 0, 0), ins(3, 11, 0)];
+    for (base, modu) in [(0i64, 0u32), (2, 3)] {
+        for ignore in [true, false] {
+            let max_cost = if ignore { 10 } else { 10 + 2 * isz };
+            let cfg = Cfg { coster_base: base, coster_mod: modu, ignore_internal_cost: ignore, max_cost, ..Cfg::default() };
+            for s in sequences(&ev_alpha, if quick { 3 } else { 4 }) {
+                jobs.push(job(single(&cfg, flavor, settled(&s)), &[0], "c16-evicting"));
+            }
+        }
+    }
     Spec {
         id: "C16",
         jobs,
         oracle: o_c16,
         interesting: |_, t| t.snaps.iter().any(|s| !s.policy.key_costs.is_empty()),
         rule: format!(
-            "coster {{const 0, const 3, 7 + seq%5}} x ignore_internal_cost {{true,false}} x max_cost {{ample, tight}} x every history of depth {} over {} symbols (I(1,c), P(1,c) for c in 0/1/5/1000, I(2,1), I(2,0)), quiescence after every write; oracle: charge == (c != 0 ? c : coster(v)) + (ignore ? 0 : size_of StoreItem) after every step, callback cost == charged cost; non-trivial = something is charged",
+            "coster {{const 0, const 3, 7 + seq%5}} x ignore_internal_cost {{true,false}} x max_cost {{ample, tight}} x every history of depth {} over {} symbols (I(1,c), P(1,c) for c in 0/1/5/1000, I(2,1), I(2,0)), quiescence after every write; plus histories over {{I(1,6), I(2,3), I(3,9), I(3,4), I(1,2), I(2,0), I(3,11)}} on a cache of capacity 10 (evictions and rejections among entries of different costs); oracle: charge == (c != 0 ? c : coster(v)) + (ignore ? 0 : size_of StoreItem) after every step, callback cost == charged cost; non-trivial = something is charged",
             depth,
             alpha.len()
         ),
@@ -513,6 +559,34 @@ fn bodies(alpha: &[Op], max_len: usize) -> Vec<Vec<Op>> {
         v.extend(sequences(alpha, l));
     }
     v
+}
+
+/// Programs in which lookups have made the residents unequally popular (buffer_items 1, so every
+/// lookup reaches the estimator) and a newcomer needs several victims: admissions that evict a
+/// cold resident and are then REJECTED against a hot one, ties, exact fits.  Capacity 10.
+fn popular_jobs(flavor: Flavor, metrics: bool, quick: bool, tag: &str) -> Vec<Job> {
+    let cfg = Cfg { max_cost: 10, buffer_items: 1, metrics, ..Cfg::default() };
+    let mut jobs = Vec::new();
+    let warms: Vec<Vec<Op>> = vec![
+        // COLD (1) and HOT (2), newcomer 3 in between
+        vec![ins(1, 5, 0), ins(2, 5, 0), Op::Get { k: 2 }, Op::Get { k: 2 }, Op::Get { k: 2 }, Op::Get { k: 3 }, Op::Get { k: 3 }],
+        // three residents with popularity 0 / 1 / 3
+        vec![ins(1, 3, 0), ins(2, 3, 0), ins(4, 3, 0), Op::Get { k: 2 }, Op::Get { k: 4 }, Op::Get { k: 4 }, Op::Get { k: 4 }, Op::Get { k: 3 }],
+    ];
+    let alpha = [ins(3, 10, 0), ins(3, 6, 0), ins(5, 4, 0), ins(1, 5, 0), Op::Rem { k: 1 }, Op::Get { k: 1 }, Op::Get { k: 3 }, Op::Settle];
+    for warm in &warms {
+        for s in sequences(&alpha, if quick { 3 } else { 4 }) {
+            if !s.iter().any(|o| matches!(o, Op::Ins { k: 3, .. } | Op::Ins { k: 5, .. })) {
+                continue;
+            }
+            let mut ops = s.clone();
+            ops.push(Op::Settle);
+            let mut p = single(&cfg, flavor, ops);
+            p.setup = warm.clone();
+            jobs.push(job(p, &[0], tag));
+        }
+    }
+    jobs
 }
 
 fn all_std() -> Vec<String> {
@@ -623,6 +697,7 @@ pub fn c01(tier: &str, flavor: Flavor) -> Spec {
             jobs.push(job(conc(&cfg, flavor, &[ins(3, 2, 0)], vec![a, b]), &[2], "c01-conc"));
         }
     }
+    jobs.extend(popular_jobs(flavor, false, quick, "c01-popular"));
     Spec {
         id: "C01",
         jobs,
@@ -676,6 +751,7 @@ pub fn c06(tier: &str, flavor: Flavor) -> Spec {
     for s in sequences(&salpha, if quick { 4 } else { 5 }) {
         jobs.push(job(single(&cfg, flavor, s), &[1], "c06-seq"));
     }
+    jobs.extend(popular_jobs(flavor, false, quick, "c06-popular"));
     Spec {
         id: "C06",
         jobs,
@@ -755,6 +831,19 @@ pub fn c08(tier: &str, flavor: Flavor) -> Spec {
     ] {
         jobs.push(job(conc(&cfg, flavor, &setup, threads), if quick { &[2] } else { &[3] }, "c08-named"));
     }
+    jobs.extend(popular_jobs(flavor, false, quick, "c08-popular-multi"));
+    // tiny insert buffers: updates of resident keys / removes whose item cannot be queued
+    for buf in [1usize, 2] {
+        let bcfg = Cfg { max_cost: 100, buffer_size: buf, ..Cfg::default() };
+        let ba = [ins(1, 1, 0), ins(2, 1, 0), ins(3, 1, 0), Op::Pres { k: 1, c: 1 }, Op::Rem { k: 1 }, Op::Get { k: 1 }, Op::Settle];
+        for s in sequences(&ba, if quick { 4 } else { 5 }) {
+            let mut ops = s.clone();
+            ops.push(Op::Settle);
+            let mut p = single(&bcfg, flavor, ops);
+            p.setup = vec![ins(1, 1, 0)];
+            jobs.push(job(p, &[0], "c08-small-buffer"));
+        }
+    }
     Spec {
         id: "C08",
         jobs,
@@ -821,6 +910,21 @@ pub fn c02(tier: &str, flavor: Flavor) -> Spec {
                 ops.push(Op::Get { k: 1 });
                 jobs.push(job(single(&cfg, flavor, ops), &[0], "c02-small-buffer"));
             }
+        }
+    }
+    // one key, several buffered inserts, the processor catching up in between (preemption bound 2):
+    // a value written in place must not be rolled back by an older buffered insert
+    {
+        let a4 = [ins(1, 1, 0), Op::Get { k: 1 }, Op::Mut { k: 1 }, Op::Settle];
+        let cfg = Cfg::default();
+        for s in sequences(&a4, if quick { 4 } else { 5 }) {
+            if s.iter().filter(|o| matches!(o, Op::Ins { .. })).count() < 2 {
+                continue;
+            }
+            let mut ops = s.clone();
+            ops.push(Op::Settle);
+            ops.push(Op::Get { k: 1 });
+            jobs.push(job(single(&cfg, flavor, ops), &[2], "c02-rollback"));
         }
     }
     // fully settled histories: exactly the last value written
@@ -1197,6 +1301,7 @@ pub fn c17(tier: &str, flavor: Flavor) -> Spec {
             }
         }
     }
+    jobs.extend(popular_jobs(flavor, true, quick, "c17-popular"));
     Spec {
         id: "C17",
         jobs,
@@ -1254,6 +1359,22 @@ pub fn c18(tier: &str, flavor: Flavor) -> Spec {
             jobs.push(job(single(&cfg, flavor, ops), &[1], "c18-unsettled"));
         }
     }
+    // the colliding pair with expiring entries: an entry whose TTL has run out but which has not
+    // been swept yet still owns its slot and its conflict hash
+    {
+        let ea = [ins(2, 1, 500), ins(4, 1, 0), ins(4, 1, 500), ins(2, 1, 0), Op::Adv { ms: 600 }, Op::Adv { ms: 1000 }, Op::Get { k: 2 }, Op::Get { k: 4 }, Op::Mut { k: 2 }, Op::Ttl { k: 2 }, Op::Rem { k: 2 }];
+        for s in sequences(&ea, if quick { 4 } else { 5 }) {
+            if !s.iter().any(|o| matches!(o, Op::Adv { .. })) || !s.iter().any(|o| matches!(o, Op::Ins { ttl_ms, .. } if *ttl_ms > 0)) {
+                continue;
+            }
+            let mut ops = s.clone();
+            ops.push(Op::Get { k: 2 });
+            ops.push(Op::Get { k: 4 });
+            ops.push(Op::Ttl { k: 2 });
+            ops.push(Op::Ttl { k: 4 });
+            jobs.push(job(single(&cfg, flavor, settled(&ops)), &[0], "c18-expiring"));
+        }
+    }
     Spec {
         id: "C18",
         jobs,
@@ -1264,7 +1385,7 @@ pub fn c18(tier: &str, flavor: Flavor) -> Spec {
             ks.len() > 1
         },
         rule: format!(
-            "cache with a colliding key builder (index = k % 2, conflict = k + 1: keys 2 and 4 share index 0, key 3 has index 1): every settled history of depth {} over 14 symbols (I/G/R on 2, 4, 3; M and T on 2 and 4; I(4,1s)) followed by lookups of both colliding keys; oracle: slot model (an operation on one key never returns, overwrites or removes the value of the other) + value provenance; non-trivial = both colliding keys were written. Key-builder determinism / identity / injectivity is enumerated separately (all u8/i8/u16/i16/bool values, boundary sets for wider types, 4000 strings in String/&str form)",
+            "cache with a colliding key builder (index = k % 2, conflict = k + 1: keys 2 and 4 share index 0, key 3 has index 1): every settled history of depth {} over 14 symbols (I/G/R on 2, 4, 3; M and T on 2 and 4; I(4,1s)) followed by lookups of both colliding keys; plus settled histories over {{I(2,500ms), I(4), I(4,500ms), I(2), A(600ms), A(1s), G(2), G(4), M(2), T(2), R(2)}} (an expired, not yet swept entry still owns its slot); oracle: slot model (an operation on one key never returns, overwrites or removes the value of the other; deadlines tracked, an expired owner leaves the slot undetermined until something is observed) + value provenance; non-trivial = both colliding keys were written. Key-builder determinism / identity / injectivity is enumerated separately (all u8/i8/u16/i16/bool values, boundary sets for wider types, 4000 strings in String/&str form)",
             if quick { 4 } else { 5 }
         ),
         assumptions: all_std(),
@@ -1421,6 +1542,19 @@ pub fn c20(tier: &str, flavor: Flavor) -> Spec {
             }
         }
     }
+    // "any positive cleanup interval": intervals below one millisecond down to 1 ns
+    for cleanup_ns in [1u64, 1_000, 200_000, 999_999] {
+        for &nc in &[1usize, 64] {
+            for max_cost in [1i64, 100] {
+                for buffer_size in [1usize, 8] {
+                    for metrics in [false, true] {
+                        let cfg = Cfg { num_counters: nc, max_cost, buffer_size, buffer_items: 1, metrics, cleanup_ns, ..Cfg::default() };
+                        jobs.push(job(single(&cfg, flavor, workload.clone()), &[0], "c20-submillisecond-cleanup"));
+                    }
+                }
+            }
+        }
+    }
     // operations on keys sharing a shard (1 and 257) while work for the neighbour is still buffered:
     // every call must complete (no self-deadlock on the shard lock, whatever the processor does)
     {
@@ -1458,7 +1592,7 @@ pub fn c20(tier: &str, flavor: Flavor) -> Spec {
         oracle: o_c20,
         interesting: |_, t| t.ledger.iter().any(|e| e.kind != CbKind::Exit),
         rule: format!(
-            "full product of num_counters {{{}}} x max_cost {{-1,1,5,100}} x buffer_size {{1,2,8}} x buffer_items {{0,1,2,64}} x metrics x ignore_internal_cost x cleanup {{1 ms, 0.5 s, 2 s}}, each running one fixed 30-operation workload (inserts incl. coster / oversize cost, lookups, get_mut, update, remove, TTL expiry with ticks, insert_if_present, update_max_cost, evictions, clear, wait, a final insert) under every scheduling/select choice at preemption bound 0; oracle: no panic in any task, no worker terminated, wait() Ok and the final insert processed on the idle cache, store/policy agreement, policy invariants; zero num_counters / max_cost / buffer_size rejected with the matching error; non-trivial = an evict / reject callback fired",
+            "full product of num_counters {{{}}} x max_cost {{-1,1,5,100}} x buffer_size {{1,2,8}} x buffer_items {{0,1,2,64}} x metrics x ignore_internal_cost x cleanup {{1 ms, 0.5 s, 2 s}}, plus cleanup intervals {{1 ns, 1 us, 200 us, 999999 ns}} x num_counters {{1,64}} x max_cost {{1,100}} x buffer_size {{1,8}} x metrics, each running one fixed 30-operation workload (inserts incl. coster / oversize cost, lookups, get_mut, update, remove, TTL expiry with ticks, insert_if_present, update_max_cost, evictions, clear, wait, a final insert) under every scheduling/select choice at preemption bound 0; oracle: no panic in any task, no worker terminated, wait() Ok and the final insert processed on the idle cache, store/policy agreement, policy invariants; zero num_counters / max_cost / buffer_size rejected with the matching error; non-trivial = an evict / reject callback fired",
             if quick { "1..8, 63..70" } else { "1..70" }
         ),
         assumptions: all_std(),
@@ -1627,6 +1761,24 @@ pub fn c11_diff_pairs(tier: &str, flavor: Flavor) -> (Vec<Job>, Vec<String>) {
                 names.push(format!("[{};X] {}", ops_short(pre), ops_short(suf)));
                 jobs.push(job(with, &[0], "c11-diff-after-clear"));
                 jobs.push(job(fresh, &[0], "c11-diff-fresh"));
+            }
+            // the clear issued by client 0 itself, immediately followed by a short suffix (no
+            // quiescence in between): what is issued after clear() returned must be treated as on
+            // a fresh cache under every schedule
+            if pre.len() <= 2 {
+                for suf in [vec![ins(7, 1, 0), Op::Settle, Op::Get { k: 7 }], vec![ins(1, 1, 0), ins(7, 1, 0), Op::Wait, Op::Get { k: 1 }, Op::Get { k: 7 }, Op::Settle]] {
+                    let mut ops = vec![Op::Clear];
+                    ops.extend(suf.iter().copied());
+                    let mut with = single(&cfg, flavor, ops.clone());
+                    with.setup = pre.clone();
+                    // the reference: the same suffix on a cache that was never used (a no-op
+                    // stands where the clear was, so that value identities coincide)
+                    ops[0] = Op::Settle;
+                    let fresh = single(&cfg, flavor, ops);
+                    names.push(format!("[{}] X;{}", ops_short(pre), ops_short(&suf)));
+                    jobs.push(job(with, &[2], "c11-diff-clear-then-suffix"));
+                    jobs.push(job(fresh, &[2], "c11-diff-fresh"));
+                }
             }
         }
     }
